@@ -16,6 +16,10 @@ CLAIMED = {
          "Lean 4 theorems on translated definitions + model/implementation correspondence"),
  "C14": ("Theorems about capacity rounding, thresholds and the count expression of add_count, stated on definitions regenerated from src/map.rs on every run and proved for every requested capacity / count; the Lean sequential model (which calls those generated definitions) must predict the table length after every operation of generated sequences; an independent oracle applies the stated growth rules to the implementation.", "7 (C14)",
          "Lean 4 theorems on translated definitions + model/implementation correspondence"),
+ "C16": ("Table theorems by `decide` over the public signature table regenerated from the source on every run (every method, trait method, associated type and lifetime-carrying field of HashMap/HashSet/HashMapRef/HashSetRef/Iter/Keys/Values, elision resolved): every borrowed result carries exactly the lifetime of &self and of the guard parameter; wrapper and iterator fields carry the struct's lifetime; no 'static bound. A lemma lifts this to 'release before last use is rejected' in a lifetime mini-model, which is validated against rustc: for every such method, generated negative programs (drop guard / refresh guard / drop map / drop wrapper before use) must fail with a borrow error and positive ones must compile.", "7 (C16)",
+         "Lean 4 decide over a translated signature table + rustc corpus generated from it"),
+ "C17": ("Table theorems by `decide` over the regenerated signature table: every inserting entry point (classified from its signature: by-value key/value parameter, closure producing a value, or a bulk trait) has Send+Sync bounds on key and value types; lookups/iteration have none; the unsafe Send/Sync impls of BinEntry are conditional. rustc corpus: each entry point instantiated with !Send, !Sync and !Send+!Sync probe types for key and value must be rejected with a Send/Sync bound error; lookup programs over such types must compile.", "7 (C17)",
+         "Lean 4 decide over a translated signature table + rustc corpus generated from it"),
  "C19": ("Theorems on the abstract map: with the duplicate-key policy extracted from serde_impls.rs on every run, deserialising any entry list never panics and a serialise/deserialise round trip preserves all lookups; any order of the same inserts (what parallel extend/collect amounts to, given C01) yields the union key set with supplied values. The visitor-loop model is executed against serde_json on generated documents; rayon paths run on pools of 1-8 threads.", "7 (C19)",
          "Lean 4 theorems on a translated policy + spec-level order-independence + differential runs"),
 }
